@@ -426,7 +426,7 @@ func c03EndToEnd(c *vf.Ctx) {
 			mode = MountDiscovery
 		}
 		idInAddrOnly := r.Intn(3) == 0
-		tk := r.Intn(len(headTampers) + 6)
+		tk := r.Intn(len(headTampers) + 7)
 		c.Cur(sub, i, fmt.Sprintf("%s mode=%s tamper=%d", cs.id, mode, tk))
 		pubStore := NewStore()
 		chain, err := NewChain(r, pubStore, 1+r.Intn(3), cs.id.ID, linkProto(multihash.SHA2_256, -1))
@@ -462,6 +462,7 @@ func c03EndToEnd(c *vf.Ctx) {
 		var body []byte
 		var tname string
 		expectReject := true
+		askOther := false
 		priorSync := false // the same subscriber first syncs a genuine, older head (its sync client is then reused)
 		switch {
 		case tk < len(headTampers):
@@ -502,6 +503,11 @@ func c03EndToEnd(c *vf.Ctx) {
 		case tk == len(headTampers)+3 || tk == len(headTampers)+4:
 			tname = "replay-of-earlier-genuine-head-with-another-cid"
 			priorSync = len(chain.Cids) > 1
+		case tk == len(headTampers)+5:
+			// the caller asks for identity A; the address it passes ends in /p2p/B and leads to B's publisher,
+			// which serves its own genuine head: not signed by the publisher the caller asked to sync
+			tname = "asked-for-another-identity-than-the-one-in-the-address"
+			askOther = true
 		default:
 			tname = "untampered"
 			expectReject = false
@@ -531,6 +537,11 @@ func c03EndToEnd(c *vf.Ctx) {
 		if idInAddrOnly {
 			p2p, _ := multiaddr.NewComponent("p2p", cs.id.ID.String())
 			pi = peer.AddrInfo{Addrs: []multiaddr.Multiaddr{front.Addr.Encapsulate(p2p)}}
+		}
+		if askOther {
+			p2p, _ := multiaddr.NewComponent("p2p", cs.id.ID.String())
+			pi = peer.AddrInfo{ID: cs.other.ID, Addrs: []multiaddr.Multiaddr{front.Addr.Encapsulate(p2p)}}
+			c.Inc("e2e_asked_for_other_identity_than_in_address")
 		}
 		wit := func() any {
 			return map[string]any{"publisher": cs.id.String(), "alteration": tname, "mount": mode.String(), "id_only_in_address": idInAddrOnly,
@@ -597,6 +608,9 @@ func c03EndToEnd(c *vf.Ctx) {
 				}
 				if (latest == nil) != !baseLatest.Defined() || (latest != nil && !latest.(cidlink.Link).Cid.Equals(baseLatest)) {
 					c.Fail(sub, i, "altered-head-changed-latest:"+tname, fmt.Sprint(latest), wit())
+				}
+				if askOther && s.GetLatestSync(cs.other.ID) != nil {
+					c.Fail(sub, i, "altered-head-changed-latest:"+tname, "latest-synced recorded for the identity asked for", wit())
 				}
 				c.Inc("e2e_rejections_expected")
 			} else {
